@@ -1640,7 +1640,7 @@ static void DecodeBR(Word Code) {
         case ModAbs: {
             Word    AbsAddr = (((Word)AdrResult.Vals[1]) << 8) | AdrResult.Vals[0];
             Integer Dist    = AbsAddr - (EProgCounter() + 2);
-            Boolean DistOK  = (Dist >= -128) && (Dist < 127);
+            Boolean DistOK  = (Dist >= -128) && (Dist <= 127);
 
             if (AdrResult.ForceRel && !DistOK) {
                 WrError(ErrNum_JmpDistTooBig);
